@@ -45,8 +45,10 @@ def options_for(reuse, q):
 
 
 def masters_of(rec):
-    axes = [(a["tag"], a["name"], a["def"]) for a in rec["axes"]]
-    masters = [(f"m{i + 1}", f"M{i + 1}", dict(m["pos"])) for i, m in enumerate(rec["masters"])]
+    # the layout "frac" stands for fractional axis coordinates: the model's integers are halved when written to the TOML
+    k = 0.5 if rec["layout"] == "frac" else 1
+    axes = [(a["tag"], a["name"], a["def"] * k) for a in rec["axes"]]
+    masters = [(f"m{i + 1}", f"M{i + 1}", {t: v * k for t, v in m["pos"].items()}) for i, m in enumerate(rec["masters"])]
     return axes, masters
 
 
@@ -409,7 +411,7 @@ def pick(recs, n, r):
 def run(chk):
     quick = chk.tier == "quick"
     chk.rule = (
-        "VarFont.tla over 8 layouts (1-2 axes, 2-3 masters, default first/last/middle/absent, intermediate masters) x 7 "
+        "VarFont.tla over 9 layouts (1-2 axes, 2-3 masters, default first/last/middle/absent, intermediate masters) x 7 "
         "sources per master (translated / scaled copies, grown donors, wider advance) with reuse on and off, model-checked "
         "exhaustively; exported scenarios rebuilt by the real CLI (variable font + each master alone) and evaluated at "
         "every master location and at quarter steps along every axis.  Non-trivial = masters differ; distinct by "
